@@ -109,8 +109,9 @@ def run_mvcapa_case(table, n, p, m, mx, ca, cb, pa, pb, ignore=False, log=False)
     from ..doubles import TableSaving, new_log, take_log
 
     lid = new_log() if log else None
-    det = MVCAPA(collective_saving=TableSaving(table, p=p, size=1, log_id=lid),
-                 point_saving=TableSaving(table, p=p, size=1),
+    int_out = (n + m + mx + int(ca)) % 2 == 1     # every second case: the savings come back as int64 arrays
+    det = MVCAPA(collective_saving=TableSaving(table, p=p, size=1, log_id=lid, int_out=int_out),
+                 point_saving=TableSaving(table, p=p, size=1, int_out=int_out),
                  collective_penalty=ConstPenalty(ca, cb), collective_penalty_scale=1.0,
                  point_penalty=ConstPenalty(pa, pb), point_penalty_scale=1.0,
                  min_segment_length=m, max_segment_length=mx, ignore_point_anomalies=ignore)
